@@ -62,6 +62,7 @@ XLSX_FEATURES = {
     "no-core-props": "no docProps/core.xml (twin: present)",
     "sheet-order-vs-file": "sheet order in workbook.xml differs from sheetN.xml numbering, images on 2nd (twin: same order)",
     "leading-empty-row": "data starts at row 2 (twin: row 1)",
+    "empty-sheet": "a worksheet without any cell among other sheets (twin: a single cell)",
     "no-dimension": "worksheet without the optional <dimension> element and a first row narrower than the rows below (twin: <dimension> present)",
     "image-size-unknown": "picture in a format whose size cannot be sniffed (EMF) anchored with ext cx=cy=0 (twin: PNG with a real extent)",
 }
@@ -599,6 +600,8 @@ def build_xlsx(seed: int, feature: str | None = None, twin: bool = False):
         rows, cols = rng.randint(1, 6), rng.randint(2, 5)
         if feature == "no-dimension" and s == feature_sheet:
             rows, cols = max(rows, 3), max(cols, 3)
+        if feature == "empty-sheet" and s == feature_sheet:
+            rows, cols = (1, 1) if twin else (0, 1)      # a sheet without any cell (twin: a single cell)
         grid = []
         xml_rows = []
         row_off = 1 if (risky == "leading-empty-row" and s == feature_sheet) else 0
@@ -723,7 +726,7 @@ def build_xlsx(seed: int, feature: str | None = None, twin: bool = False):
                 legacy = '<legacyDrawing r:id="rIdV"/>'
             parts[f"xl/worksheets/_rels/sheet{fno}.xml.rels"] = _rels(sheet_rels)
             drawing_xml = '<drawing r:id="rIdD"/>' + legacy
-        dim_xml = f'<dimension ref="A1:{_col(cols - 1)}{rows + row_off}"/>'
+        dim_xml = f'<dimension ref="A1:{_col(cols - 1)}{max(rows, 1) + row_off}"/>'
         parts[f"xl/worksheets/sheet{fno}.xml"] = (f'<?xml version="1.0" encoding="UTF-8" standalone="yes"?><worksheet xmlns="{S}" xmlns:r="{R_NS}">'
                                                   f'{"" if (risky == "no-dimension" and s == feature_sheet) else dim_xml}<sheetData>{"".join(xml_rows)}</sheetData>{drawing_xml}</worksheet>').encode()
         wb_rels.append((f"rIdSh{s + 1}", REL_T + "worksheet", f"worksheets/sheet{fno}.xml", None))
